@@ -185,7 +185,9 @@ class Torus:
         c, eta = self.baresite(bFV, bFT0)
         L0vv = c.sum(axis=0) / SV
         ref = sum(np.exp(-bFS[inv[i]]) * (M * SV * L0vv - c[i]) for i in range(N))
-        return L0vv, pref * num['ss'], pref * num['sv'], pref * (num['vv'] - ref)
+        # the calculator indexes its solute-vacancy tensor [vacancy component, solute component]; it is not symmetric for
+        # point groups with an invariant axial vector (triclinic, 2/m, 4/m ...): transpose the chain's [solute, vacancy]
+        return L0vv, pref * num['ss'], pref * num['sv'].T, pref * (num['vv'] - ref)
 
 
 class GFstub:
